@@ -83,6 +83,13 @@ S = {
  "C19D": "NewCollector copies its options into a zero-length slice: merge policies of the flag are lost",
  "C20C": "MaxIdx default applied 'if zero' after the options ran: MaxIdx(0) silently becomes 1024",
  "C20D": "expansionAlt passes EscapePath where EnableNumKeys belongs: ${5:+x} decides index-vs-name by the wrong option",
+ "C04E": "validateMin/validateMax recognise durations only by value: a *time.Duration default is compared in nanoseconds against a bound in seconds",
+ "C13E": "default list merge writes into the pre-filled slice when the configured list is not longer: the caller's slice is modified by a failing Unpack",
+ "C13F": "an inline struct / map field loses its own policy tag for its sub-fields (reifyInto(opts) instead of the field's options)",
+ "C14E": "setContextField without the cfgSub case (value-receiver SetContext is a no-op): errors in shifted list objects name the old index (mechanism of C15D, observed through C14)",
+ "C14F": "only the innermost new level of a dotted key inherits the metadata: errors against outer created levels lose the source",
+ "C18E": "cfgFloat.toString formats whole numbers through int64: [2^63, 2^64) and -2^63 read differently through JSON and YAML",
+ "C19E": "Collector.Add skips configs without named top-level fields: list-shaped settings (-D 0=x) are dropped",
 }
 
 rows = []
